@@ -1,8 +1,83 @@
-From Coq Require Import List.
+(* C12 - a finished step's log holds everything the step printed.
+   This file holds nothing but the property theorems (closed by `exact`), Print Assumptions and Examples.
+   Model: Log/Model.v - files, descriptors, bufio.Writer (4096: Write with bypass / fill-flush, Flush, ReadFrom),
+   io.MultiWriter, the capture pipe (16 page slots, merge rule of pipe_write), node.setup / setupExec / Execute /
+   teardown with the `done` flag, attempts, stale teardowns.  Tie to the code: tools/props/C12.py (real scheduler,
+   real sh children printing a position-dependent pattern; file contents against the model's prediction).
+
+   The full statement
+       forall c atts lates, atts <> [] -> complete c (last atts []) (run c atts lates)
+   (every subset of {stdout file, stderr file, output variable, script}, every number of attempts, every chunking,
+   interleaving and size) is FALSE of the faithful model: F12a, F12b, F12c - the _refuted theorems below, each
+   replayed on the real code by the check.  C12_complete_partial is the strongest statement proved: one attempt
+   (no retry happened), and `output:` unset or at most half a pipe (32768 bytes) towards the capture pipe. *)
+From Coq Require Import List NArith.
 Import ListNotations.
 From BD.Log Require Import Model Proofs.
 
-Theorem C12_complete_refuted_retry : exists (c : cfg) (atts : list (list (chunk nat))) (lates : list nat),
-  atts <> [] /\ ~ complete nat c (last atts []) (run nat c atts lates).
-Proof. exact Proofs.C12_complete_refuted_retry. Qed.
-Print Assumptions C12_complete_refuted_retry.
+(* For every configuration, every chunking / interleaving of the two streams and every size: when the worker of a
+   step that needed no retry is gone, no write blocked, the file named by State.Log holds exactly the bytes that
+   went towards the log in arrival order, the `stdout:` file ends with the same sequence, the `stderr:` file with
+   every stderr byte.  Invariant of the proof: file ++ buffered = bytes accepted (and buffered <= 4096). *)
+Theorem C12_complete_partial : forall (A : Type) (c : cfg) (cs : list (chunk A)),
+  (c_output c = false \/ length (log_of A c cs) <= HALFPIPE) -> complete A c cs (run A c [cs] []).
+Proof. exact complete_single. Qed.
+Print Assumptions C12_complete_partial.
+
+(* the sequence that reaches the log is an order-preserving merge of the attempt's stdout and - unless `stderr:` is
+   configured - its stderr: every byte of either stream is there, in order *)
+Theorem C12_log_is_merge : forall (A : Type) (c : cfg) (cs : list (chunk A)),
+  is_merge A (out_of A cs) (if c_stderr c then [] else err_of A cs) (log_of A c cs).
+Proof. exact log_of_merge. Qed.
+Print Assumptions C12_log_is_merge.
+
+(* what an `output:` variable receives before TrimSpace (C11): the same sequence - stdout, and stderr too when it
+   is not redirected (F11d) *)
+Theorem C12_capture_partial : forall (A : Type) (c : cfg) (cs : list (chunk A)),
+  c_output c = true -> length (log_of A c cs) <= HALFPIPE ->
+  outvar A (run A c [cs] []) = Some (log_of A c cs).
+Proof. exact capture_single. Qed.
+Print Assumptions C12_capture_partial.
+
+Theorem C12_capture_stdout_refuted : exists (c : cfg) (cs : list (chunk nat)),
+  c_output c = true /\ outvar nat (run nat c [cs] []) <> Some (out_of nat cs).
+Proof. exact capture_stdout_refuted. Qed.
+Print Assumptions C12_capture_stdout_refuted.
+
+(* F12a: retry x MultiWriter wiring (stdout: file / output: variable), teardowns in the usual order *)
+Theorem C12_complete_refuted_retry_stdout : exists (c : cfg) (atts : list (list (chunk nat))) (lates : list nat),
+  atts <> [] /\ Forall (fun d => d = 0) lates /\ ~ complete nat c (last atts []) (run nat c atts lates).
+Proof. exact complete_refuted_retry_stdout. Qed.
+Print Assumptions C12_complete_refuted_retry_stdout.
+
+Theorem C12_complete_refuted_retry_output : exists (c : cfg) (atts : list (list (chunk nat))) (lates : list nat),
+  atts <> [] /\ Forall (fun d => d = 0) lates /\ ~ complete nat c (last atts []) (run nat c atts lates).
+Proof. exact complete_refuted_retry_output. Qed.
+Print Assumptions C12_complete_refuted_retry_output.
+
+(* F12b: plain wiring, the stale worker's teardown lands after the next attempt's setup *)
+Theorem C12_complete_refuted_stale_teardown : exists (c : cfg) (atts : list (list (chunk nat))) (lates : list nat),
+  atts <> [] /\ c_stdout c = false /\ c_output c = false /\ ~ complete nat c (last atts []) (run nat c atts lates).
+Proof. exact complete_refuted_stale_teardown. Qed.
+Print Assumptions C12_complete_refuted_stale_teardown.
+
+(* F12c: output: beyond the pipe - and the half-pipe premise is nearly sharp *)
+Theorem C12_complete_refuted_pipe : exists (c : cfg) (cs : list (chunk nat)),
+  c_output c = true /\ blocked nat (run nat c [cs] []) = true.
+Proof. exact complete_refuted_pipe. Qed.
+Print Assumptions C12_complete_refuted_pipe.
+
+Theorem C12_complete_refuted_pipe_chunking : exists (c : cfg) (cs : list (chunk nat)),
+  c_output c = true /\ N.of_nat (length (log_of nat c cs)) = 34833%N /\ blocked nat (run nat c [cs] []) = true.
+Proof. exact complete_refuted_pipe_chunking. Qed.
+Print Assumptions C12_complete_refuted_pipe_chunking.
+
+(* Non-vacuity: the premise of C12_complete_partial holds for a run with every setting on, 8003 bytes in chunks
+   that exercise bypass and fill-flush, and the files hold what the theorem says *)
+Example C12_nonvacuous :
+  let c := mkc true true true false in
+  let cs := [(Out, repeat 7 5000); (Err, [1; 2; 3]); (Out, repeat 8 3000)] in
+  (c_output c = false \/ length (log_of nat c cs) <= HALFPIPE) /\
+  dsk nat (run nat c [cs] []) (logpath nat (run nat c [cs] [])) = repeat 7 5000 ++ repeat 8 3000 /\
+  dsk nat (run nat c [cs] []) P_STDERR = [1; 2; 3].
+Proof. exact complete_single_example. Qed.
